@@ -102,7 +102,7 @@ func init() {
 	register(&Prop{
 		ID:         "C05",
 		Title:      "Conditional writes are decided on the target item only, atomically",
-		Decided:    "(R1) every evaluation of a write condition (a call of the core function that builds a MatchInput of kind 'conditional', with a condition set) receives as item the map stored under – or the empty map for – the key derived with the table's own GetKey from the request in the same function; (R2) no QueryInput that reaches the whole-table iteration (SearchData) ever carries a write condition, and no client write method evaluates a condition by iterating the table; (R3) in Put/Update/Delete the condition verdict is obtained before the first state write and the failing edge returns without any write (typestate, shared with C08.R1), the documented interpreter panic can only be raised before any write; (R4) the failing edge yields the code ConditionalCheckFailedException, the v2 adapter maps that code to the SDK type and carries Item; the item attached on request is the stored item; (R5) all three write operations (PutItem, UpdateItem, DeleteItem) hand their condition to core; (R7) the target item is the one stored under the key of the request: the key derivation folds no two key values into one (= C01.R8), otherwise the condition is decided on a bystander; (R8) the values a condition compares the target item with are the ones the request supplied: the request's values are loaded after the item and win (= C06.R10).",
+		Decided:    "(R1) every evaluation of a write condition (a call of the core function that builds a MatchInput of kind 'conditional', with a condition set) receives as item the map stored under – or the empty map for – the key derived with the table's own GetKey from the request in the same function; (R2) no QueryInput that reaches the whole-table iteration (SearchData) ever carries a write condition, and no client write method evaluates a condition by iterating the table; (R3) in Put/Update/Delete the condition verdict is obtained before the first state write and the failing edge returns without any write (typestate, shared with C08.R1), the documented interpreter panic can only be raised before any write; (R4) the failing edge yields the code ConditionalCheckFailedException, the v2 adapter maps that code to the SDK type and carries Item; the item attached on request is the stored item; (R5) all three write operations (PutItem, UpdateItem, DeleteItem) hand their condition to core; (R7) the target item is the one stored under the key of the request: the key derivation folds no two key values into one (= C01.R8), otherwise the condition is decided on a bystander; (R8) the values a condition compares the target item with are the ones the request supplied: the request's values are loaded after the item and win (= C06.R10); (R9) decision table of the evaluator: over presence and verdict of key condition, filter and write condition (and every other test the function makes, tried both ways) the verdict is the write condition's own whenever one is present; (R10) no conversion on the request path retains the address of a loop variable (= C18.R9): every placeholder keeps its own name and value.",
 		NotDecided: "the truth value of the condition itself (C06); equality of table state before/after a refused write is implied by 'no write before the verdict', not computed.",
 		Rules: []RuleDef{
 			{ID: "R1", Desc: "the condition sees Data[GetKey(request)] or the empty item (T-FLOW/SSA origin)", Run: func(e *Engine) {
@@ -441,6 +441,8 @@ func init() {
 			}},
 			{ID: "R7", Desc: "the target item is identified without loss: no rounding, trimming or folding on the key derivation path (= C01.R8)", Run: aliasRule("R7", c01R8, nil)},
 			{ID: "R8", Desc: "the condition compares against the values the request supplied: placeholders are not shadowed by stored attributes (= C06.R10)", Run: aliasRule("R8", c06R10, nil)},
+			{ID: "R9", Desc: "the engine's verdict for a request is exactly the combination of the interpreter's verdicts for the expressions present – no shortcut answers for an expression without evaluating it (decision table)", Run: c05R9},
+			{ID: "R10", Desc: "the names and values a condition refers to reach the engine one by one: no conversion keeps the address of a loop-carried variable (all placeholders would resolve to the last one) (= C18.R9)", Run: aliasRule("R10", c18R9, nil)},
 		},
 	})
 }
@@ -713,4 +715,197 @@ func (e *Engine) verdictHelper(h *ssa.Function, evs []*ssa.Function, cs *coreSta
 		}
 	}
 	return refusedReturns > 0
+}
+
+// c05R9: the verdict of the expression evaluator of the engine (matchKey) as a decision table. For every assignment of
+// (key condition present, filter present, write condition present, Scan flag, the interpreter's verdicts for the three
+// kinds) the function is evaluated abstractly; whatever else it branches on (the size of the item, a text pattern, a
+// cache hit) is tried both ways. The verdict must be
+//
+//	m = Scan;  key present: m = V(key);  filter present: m = m && V(filter);  condition present: m = V(condition)
+//
+// in every case – in particular no branch may answer for an expression that is present without asking the interpreter.
+func c05R9(e *Engine) {
+	evs := e.conditionEvaluators()
+	if !e.anchor("R9", "core: the expression evaluator (builder of MatchInput)", len(evs) == 0) {
+		return
+	}
+	mk := evs[0]
+	im := e.fn("core", "Table.interpreterMatch")
+	kindOf := map[*ssa.Call]string{}
+	instrs(mk, func(in ssa.Instruction) {
+		c, ok := in.(*ssa.Call)
+		if !ok || c.Call.StaticCallee() == nil {
+			return
+		}
+		g := c.Call.StaticCallee()
+		if g == im && len(c.Call.Args) > 1 {
+			for _, v := range e.structFieldStores(c.Call.Args[1], "ExpressionType") {
+				if s, isK := constString(v); isK {
+					kindOf[c] = s
+				}
+			}
+			return
+		}
+		if e.fnRole(g) == "core" && im != nil && e.reach(g)[im] && isBoolType(c.Type()) {
+			for _, a := range c.Call.Args {
+				if s, isK := constString(a); isK && (s == "key" || s == "filter" || s == "conditional") {
+					kindOf[c] = s
+				}
+			}
+		}
+	})
+	construct := e.fname(mk) + ":verdict-table"
+	if len(kindOf) < 3 {
+		e.undecided("R9", construct, e.pos(mk.Pos()), "the interpreter calls for the three expression kinds were not all found (%d)", len(kindOf))
+		return
+	}
+	fieldName := func(v ssa.Value) string {
+		for i := 0; i < 4; i++ {
+			v = strip(v)
+			switch x := v.(type) {
+			case *ssa.UnOp:
+				if x.Op != token.MUL {
+					return ""
+				}
+				v = x.X
+				continue
+			case *ssa.FieldAddr:
+				return fieldOf(x).Name()
+			case *ssa.Field:
+				return fieldOf(x).Name()
+			}
+			break
+		}
+		return ""
+	}
+	type world struct{ k, f, c1, c2, s, vk, vf, vc bool }
+	bits := func(n int) world {
+		return world{n&1 != 0, n&2 != 0, n&4 != 0, n&8 != 0, n&16 != 0, n&32 != 0, n&64 != 0, n&128 != 0}
+	}
+	var probs []string
+	cases := 0
+	for n := 0; n < 256; n++ {
+		w := bits(n)
+		if !w.c1 && w.c2 {
+			continue // *nil is never read
+		}
+		free := map[ssa.Value]bool{}
+		var freeOrder []ssa.Value
+		for mask := 0; ; mask++ {
+			if mask >= 1<<uint(len(freeOrder)) && mask > 0 {
+				break
+			}
+			for i, v := range freeOrder {
+				free[v] = mask&(1<<uint(i)) != 0
+			}
+			grew := false
+			ret, evalAt, ok := interpBool(mk, func(v ssa.Value) (bool, bool) {
+				switch x := v.(type) {
+				case *ssa.BinOp:
+					if x.Op != token.EQL && x.Op != token.NEQ {
+						if isBoolType(x.X.Type()) {
+							return false, false
+						}
+						break
+					}
+					if isBoolType(x.X.Type()) {
+						return false, false // boolean algebra: left to the interpreter
+					}
+					eq := x.Op == token.EQL
+					if s, isK := constString(x.Y); isK && s == "" {
+						switch fieldName(x.X) {
+						case "KeyConditionExpression":
+							return w.k != eq, true
+						case "FilterExpression":
+							return w.f != eq, true
+						case "ConditionExpression":
+							return w.c2 != eq, true
+						}
+					}
+					if isNilConst(x.Y) && fieldName(x.X) == "ConditionExpression" {
+						return w.c1 != eq, true
+					}
+				case *ssa.UnOp:
+					if x.Op == token.MUL && isBoolType(x.Type()) && fieldName(x) == "Scan" {
+						return w.s, true
+					}
+					if x.Op == token.NOT {
+						return false, false
+					}
+				case *ssa.Field:
+					if isBoolType(x.Type()) && fieldOf(x) != nil && fieldOf(x).Name() == "Scan" {
+						return w.s, true
+					}
+				case *ssa.Call:
+					switch kindOf[x] {
+					case "key":
+						return w.vk, true
+					case "filter":
+						return w.vf, true
+					case "conditional":
+						return w.vc, true
+					}
+				case *ssa.Const, *ssa.Phi:
+					return false, false
+				}
+				if !isBoolType(v.Type()) {
+					return false, false
+				}
+				// anything else the function branches on: tried both ways
+				if val, have := free[v]; have {
+					return val, true
+				}
+				if len(freeOrder) < 4 {
+					freeOrder = append(freeOrder, v)
+					free[v] = false
+					grew = true
+					return false, true
+				}
+				return false, false
+			})
+			if grew {
+				mask = -1 // new free atoms were discovered: start the enumeration over with them
+				continue
+			}
+			cases++
+			want := w.s
+			if w.k {
+				want = w.vk
+			}
+			if w.f {
+				want = want && w.vf
+			}
+			if w.c1 && w.c2 {
+				want = w.vc
+			}
+			got, decided := false, false
+			if ok {
+				got, decided = evalAt(retVals(ret)[1])
+			}
+			desc := fmt.Sprintf("key condition present:%v (verdict %v), filter present:%v (verdict %v), write condition present:%v (verdict %v), Scan:%v", w.k, w.vk, w.f, w.vf, w.c1 && w.c2, w.vc, w.s)
+			if len(freeOrder) > 0 {
+				var fs []string
+				for _, v := range freeOrder {
+					fs = append(fs, fmt.Sprintf("%s=%v", v.String(), free[v]))
+				}
+				desc += "; other tests: " + strings.Join(fs, ", ")
+			}
+			switch {
+			case !decided:
+				probs = append(probs, "the verdict could not be evaluated for: "+desc)
+			case got != want:
+				probs = append(probs, fmt.Sprintf("the verdict is %v where the expressions' own verdicts give %v – %s", got, want, desc))
+			}
+			if len(freeOrder) == 0 {
+				break
+			}
+		}
+	}
+	if len(probs) > 0 {
+		sort.Strings(probs)
+		e.fail("R9", construct, e.pos(mk.Pos()), "%s (%d more case(s)): an expression that is present is answered without, or against, the interpreter's verdict", probs[0], len(probs)-1)
+	} else {
+		e.pass("R9", construct, e.pos(mk.Pos()), "decision table over %d cases: the verdict is Scan, replaced by the key condition's, conjoined with the filter's, replaced by the write condition's – each whenever that expression is present, never otherwise", cases)
+	}
 }
